@@ -325,6 +325,39 @@ def _native_get(starts: Any, elems: List[Any], key: Any) -> Optional[int]:
     return _untraced(go)
 
 
+def _native_slice(starts: Any, elems: List[Any], a: Any, b: Any) -> Optional[bytes]:
+    """data[a:b] for concrete bounds over a stretch of concrete octets, decided outside the tracer (None -> general path)."""
+    import bisect
+
+    def go() -> Optional[bytes]:
+        if type(a) is not int or type(b) is not int or a < 0:
+            return None
+        hi = min(b, starts[-1])
+        if a >= hi:
+            return b''
+        out = bytearray()
+        i = bisect.bisect_right(starts, a) - 1
+        pos = a
+        while pos < hi:
+            e = elems[i]
+            k = pos - starts[i]
+            if isinstance(e, wire.Tok):
+                if type(e.value) is not int:
+                    return None
+                while k < e.width and pos < hi:
+                    out.append((e.value >> (8 * (e.width - 1 - k))) & 0xFF)
+                    k += 1
+                    pos += 1
+            else:
+                take = bytes.__getitem__(e, slice(k, k + (hi - pos)))
+                out += take
+                pos += len(take)
+            i += 1
+        return bytes(out)
+
+    return _untraced(go)
+
+
 class SymPacket:
     """A datagram as the element list produced by the encoder, readable like `bytes` by the real decoder:
     len(), integer indexing (octets of value tokens are arithmetic terms) and slicing."""
@@ -379,6 +412,10 @@ class SymPacket:
         return e[k]
 
     def _slice(self, a: Any, b: Any) -> Any:
+        if self._cstarts is not None:
+            fast = _native_slice(self._cstarts, self.elems, a, b)
+            if fast is not None:
+                return fast
         if b > self.length:
             b = self.length
         if not (a < b):
